@@ -59,10 +59,22 @@ class Cfg:
             out.append((u.scheme, u.hostname or "", u.netloc, u.path.rstrip("/")))
         return out
 
+    def leftover(self):
+        """A STANDALONE configuration (sso.enabled=false) that still carries sso.* settings (harness cookies.go leftoverSSO:
+        the settings not on the input line are derived from the domain by the same rule). None otherwise."""
+        if self.sso or (self.domain == "" and self.sso_name == ""):
+            return None
+        return {"sso.enabled": False, "sso.domain": self.domain, "sso.session-cookie-name": self.sso_name,
+                "sso.mode": "proxy" if self.domain.startswith(".") else "server", "sso.server-url": "https://sso.example.com",
+                "sso.server-default-redirect-url": "https://www.example.com/"}
+
     def describe(self):
-        return {"secure": self.secure, "same_site": self.samesite, "prefix": self.prefix, "ingresses": self.ingresses,
-                "sso_server": self.sso, "sso_domain": self.domain, "sso_session_cookie_name": self.sso_name,
-                "legacy_cookie": self.legacy, "ratelimit": [self.rl, self.logins, self.window]}
+        d = {"secure": self.secure, "same_site": self.samesite, "prefix": self.prefix, "ingresses": self.ingresses,
+             "sso_server": self.sso, "sso_domain": self.domain, "sso_session_cookie_name": self.sso_name,
+             "legacy_cookie": self.legacy, "ratelimit": [self.rl, self.logins, self.window]}
+        if self.leftover():
+            d["standalone_mode_with_leftover_sso_settings"] = self.leftover()
+        return d
 
 
 class Script:
